@@ -1,7 +1,11 @@
 package main
 
 import (
+	"context"
 	"errors"
+	"fmt"
+	"io"
+	"os"
 	"time"
 
 	"github.com/esimov/gogu"
@@ -71,6 +75,28 @@ type retryRunner struct{}
 
 var errScript = errors.New("scripted failure")
 
+// scriptedErr: the failures of a script are different error VALUES (a plain error, the context package's sentinels -
+// bare and wrapped -, io.EOF, a typed error): the property counts failed calls, whatever they failed with.
+type typedErr struct{ code int }
+
+func (e typedErr) Error() string { return "typed failure " + itoa(e.code) }
+
+func scriptedErr(i int) error {
+	switch i % 6 {
+	case 1:
+		return context.Canceled
+	case 2:
+		return fmt.Errorf("attempt %d: %w", i, context.DeadlineExceeded)
+	case 3:
+		return io.EOF
+	case 4:
+		return typedErr{i}
+	case 5:
+		return fmt.Errorf("attempt %d: %w", i, os.ErrDeadlineExceeded)
+	}
+	return errScript
+}
+
 func (r *retryRunner) Do(op []string) string {
 	switch op[0] {
 	case "retry":
@@ -86,7 +112,7 @@ func (r *retryRunner) Do(op []string) string {
 			if i < len(script) && script[i] == 0 {
 				return nil
 			}
-			return errScript
+			return scriptedErr(i + n)
 		})
 		return itoa(attempts) + " " + errs(err) + " " + itoa(calls)
 	case "retrydelay", "retrydelayus":
@@ -120,7 +146,7 @@ func (r *retryRunner) Do(op []string) string {
 			if i < len(script) && script[i] == 0 {
 				return nil
 			}
-			return errScript
+			return scriptedErr(i + n)
 		})
 		return itoa(attempts) + " " + errs(err) + " " + itoa(calls) + " " + ints(stamps) + " " + ints(ends)
 	}
